@@ -295,7 +295,9 @@ let cmd_loop (_param : string) (arg : string) (_impl : string) : string * string
             | ["CHG"; a; h] when String.length h >= 24 ->
               let le32 off = n_to_hex (n_of_hex (String.concat "" (List.rev_map (fun i -> String.sub h (off + 2 * i) 2) [0; 1; 2; 3]))) in
               let sid = le32 8 and uid = le32 16 in
-              if not (Hashtbl.mem installed (a, uid)) then fails := "C05:change-program-before-install" :: !fails;
+              if not (Hashtbl.mem installed (a, uid)) then begin
+                fails := "C05:change-program-before-install" :: !fails;
+                fails := "C17:change-program-names-a-uid-never-installed-there" :: !fails end;
               let a' = String.sub a 1 (String.length a - 1) in
               if not (Hashtbl.mem origins (a', sid)) then fails := "C09:command-to-foreign-address-or-flow" :: !fails
             | ["UPD"; a; h] when String.length h >= 16 ->
@@ -355,6 +357,8 @@ let cmd_loop (_param : string) (arg : string) (_impl : string) : string * string
           else begin
             if d15 then fails := "C15:handling-algorithm-or-installed-set-differs" :: !fails;
             if d05 && not d15 then fails := "C05:installations-or-selected-uids-differ" :: !fails;
+            (* C17, last clause: the uid a scope carries is the uid placed in the install message of that program *)
+            if d05 && not d15 then fails := "C17:selected-uid-is-not-the-installed-one" :: !fails;
             if d09 then fails := "C09:command-destination-or-flow-id-differs" :: !fails;
             if d11 && not d05 && not d09 then fails := "C11:command-result-or-message-differs" :: !fails;
             (* the same commands succeeded and failed, but a message's bytes are not what its updates say *)
